@@ -137,6 +137,8 @@ def gen_x0(rng, g, D, kind):
 
 
 def gen_optimum(rng, g, D, where):
+    if where == "x0":
+        where = "plausible"     # replaced by the starting point itself in make_scenario
     lo = g["lb"] if g["lb"] is not None else [p - 3 * (q - p) for p, q in zip(g["plb"], g["pub"])]
     hi = g["ub"] if g["ub"] is not None else [q + 3 * (q - p) for p, q in zip(g["plb"], g["pub"])]
     plb = g["plb"] if g["plb"] is not None else lo
@@ -355,8 +357,8 @@ DEFAULT_PROFILE = dict(
     geom_w=[3, 3, 2, 2, 2, 2, 1, 1, 2],
     x0=["inside", "on_bound", "absent", "hard_not_plausible"],
     x0_w=[5, 2, 2, 1],
-    where=["plausible", "hard", "face", "outside"],
-    where_w=[4, 2, 2, 2],
+    where=["plausible", "hard", "face", "outside", "x0"],
+    where_w=[4, 2, 2, 2, 1],
     fam=["quad", "abs", "plateau", "const", "linear", "rosen", "adversary"],
     fam_w=[6, 2, 2, 1, 1, 1, 3],
     noise=["none", "auto", "declared", "hetero"],
@@ -383,6 +385,9 @@ def make_scenario(seed, profile=None, index=0):
     where = _choice(rng, prof["where"], prof.get("where_w"))
     fam = _choice(rng, prof["fam"], prof.get("fam_w"))
     tgt = gen_target(rng, g, D, fam, where, sseed)
+    if where == "x0" and x0 is not None and isinstance(tgt.get("c"), list) and len(tgt["c"]) == D:
+        # the starting point is already optimal: the run should return (the snapped) x0, record 0 of the log
+        tgt["c"] = [abs(v) + 1e-300 for v in x0] if tgt["family"] == "logquad" else list(x0)
     nkind = _choice(rng, prof["noise"], prof.get("noise_w"))
     if fam in ("adversary",) and nkind != "none" and rng.random() < 0.7:
         nkind = "none"
